@@ -265,7 +265,17 @@ func appendEvents(path string, events []Event) error {
 		return nil
 	}
 	verifPoint("append.write")
-	return writeAll(file, batch)
+	info, statErr := file.Stat()
+	if err := writeAll(file, batch); err != nil {
+		// A short write (disk full, file size limit) can leave a prefix of the batch in the log,
+		// possibly whole events of it. The caller holds the store lock, so nobody else has appended
+		// since: cut the log back to where it was, so that the failed command leaves nothing behind.
+		if statErr == nil {
+			_ = file.Truncate(info.Size())
+		}
+		return err
+	}
+	return nil
 }
 
 func writeEventsFile(path string, events []Event) error {
